@@ -45,7 +45,7 @@ PROPS = {
     },
     'C14': {
         'title': 'Every well-formed definition compiles in every supported configuration',
-        'level_text': "PARTIAL. Proof (C14.dynamic_iff, item_names, toSnake_noUpper, pascalGo_noUnderscore, toPascal_head, accessor_names; C12.method_name_declared): the dynamic API is emitted iff dynamic: true or the feature is set; generated names follow the convention (snake_case methods/accessors/extractors for any state name, PascalCase variants, Dynamic<Name>, <Name>Event). That rustc accepts the expansion of every well-formed definition is not a Lean statement: it is established by rustc on the T4 pos corpus (option product, four build configurations) and on every machine T3 compiles, rebuilt from the current tree on every run. The macro-level half is a theorem (C13Complete.macro_accepts: every definition satisfying R1-R10 is expanded, never refused), and where the naming side conditions fail the modelled rustc rules reject the expansion (SideConditions).",
+        'level_text': "PARTIAL. Proof (C14.dynamic_iff, item_names, toSnake_noUpper, pascalGo_noUnderscore, toPascal_head, accessor_names; C12.method_name_declared): the dynamic API is emitted iff dynamic: true or the feature is set; generated names follow the convention (snake_case methods/accessors/extractors for any state name, PascalCase variants, Dynamic<Name>, <Name>Event). That rustc accepts the expansion of every well-formed definition is not a Lean statement: it is established by rustc on the T4 pos corpus (option product, four build configurations) and on every machine T3 compiles, rebuilt from the current tree on every run. The macro-level half is a theorem (C13Complete.macro_accepts: every definition satisfying R1-R10 is expanded, never refused), and where the naming side conditions fail the modelled rustc rules reject the expansion (SideConditions). C14Names.accepted_iff characterises the modelled verdict of rustc (its duplicate-definition rules E0428/E0124/E0592/E0119 over the emitted items) as a condition on names alone: the expansion is accepted exactly when the derived names (type names, struct fields, per-state methods, event variants, Dynamic<M> methods) do not coincide; namesOK_config / accepted_config / namesOK_hooks show that the verdict is the same for every choice of sync/async, context mode and type, payloads and hooks; the corollaries (state_named_like_generated_type, event_named_new, snake_collision_dynamic, extractor_meets_reader, event_named_like_accessor) name each family of coincidences, one instance of each being re-observed with rustc on every run (T4 known).",
         'level_note': 'Known limits of the real code at the edges of well-formedness are recorded in known_findings.json (derived-name collisions, dynamic with zero events, concrete context without Default under dynamic). Ties: T2 all regions decl/sig, T4 pos, T3 builds.',
         'modules': ['SMV.Props.C14', 'SMV.Props.SideConditions', 'SMV.Props.C13Complete', 'SMV.Props.C14Names'],
         'regions': ['FE', 'MK', 'ST', 'IH', 'CT', 'SIG', 'SA', 'XA', 'SUB', 'EV', 'AS', 'DN', 'DF', 'ID', 'EX', 'DA', 'HD', 'CS'],
@@ -81,9 +81,9 @@ PROPS = {
     },
     'C09': {
         'title': 'Typestate and dynamic modes are observationally equivalent',
-        'level_text': "Proof (C09.handle_is_typed, typed_method_iff, error_correspondence): for every state, declared event, payload, history and hook environment, handle runs exactly the typed method that exists for that event on the current state (same hook trace, same resulting machine, guard-failed/action-failed errors mapped with the same names, panics propagating) and an event has no typed method on the current state exactly when the wrapper refuses it as an invalid transition. RefineReply.step_reply / replies_refine: along every history under scripted hooks, each reply of handle is exactly the abstract machine's reply - Ok, InvalidTransition{from: current leaf, event} when no edge, the first vetoing around callback's error, else GuardFailed naming the first guard answering false / unless-condition answering true and the declared event.",
+        'level_text': "Proof (C09.handle_is_typed, typed_method_iff, error_correspondence): for every state, declared event, payload, history and hook environment, handle runs exactly the typed method that exists for that event on the current state (same hook trace, same resulting machine, guard-failed/action-failed errors mapped with the same names, panics propagating) and an event has no typed method on the current state exactly when the wrapper refuses it as an invalid transition. RefineReply.step_reply / replies_refine: along every history under scripted hooks, each reply of handle is exactly the abstract machine's reply - Ok, InvalidTransition{from: current leaf, event} when no edge, the first vetoing around callback's error, else GuardFailed naming the first guard answering false / unless-condition answering true and the declared event. RefineErase.conversion_erasure: for ARBITRARY hooks (history-dependent answers, writes, vetoes, panics) a history that dispatches events through whichever API the caller holds, converting between the modes at will, ends with the same machine carried (state, context, every data slot) after the same hook trace as the same events dispatched through handle on the machine wrapped once, and is ended by a hook panic exactly when that one is.",
         'level_note': 'Same side conditions as C01. Ties: T2 region HD, T3 (same operations through handle and through into_<s>/typed call/into_dynamic).',
-        'modules': ['SMV.Props.C09', 'SMV.Props.RefineReply', 'SMV.Props.RefineTyped', 'SMV.Props.RefineMixed'],
+        'modules': ['SMV.Props.C09', 'SMV.Props.RefineReply', 'SMV.Props.RefineTyped', 'SMV.Props.RefineMixed', 'SMV.Props.RefineErase'],
         'regions': ['HD', 'EV', 'SIG'],
         't3': ['walk', 'assign'],
         't5': True,
@@ -91,9 +91,9 @@ PROPS = {
     },
     'C10': {
         'title': 'Mode conversions are exact and lossless',
-        'level_text': "Proof (C10.into_dynamic_state, extract_iff, extract_method, roundtrip, default_is_new, conversions_silent, conversion_step, conversion_chain): into_dynamic wraps the machine unchanged under its own state's variant; into_<s> succeeds iff the wrapper is in s and otherwise (poisoned included) hands the wrapper back unchanged; both round trips are the identity; conversions run no hook and drop nothing; Default is new(Default::default()). RefineMixed.mixed_refines_spec: along every history in which the caller dispatches events through whichever mode it holds (handle, or the typed method when it exists) and converts between the modes at will, the state follows the abstract machine over the dispatched events, each dispatch is accepted exactly when the abstract machine accepts it, and every conversion succeeds and changes nothing.",
+        'level_text': "Proof (C10.into_dynamic_state, extract_iff, extract_method, roundtrip, default_is_new, conversions_silent, conversion_step, conversion_chain): into_dynamic wraps the machine unchanged under its own state's variant; into_<s> succeeds iff the wrapper is in s and otherwise (poisoned included) hands the wrapper back unchanged; both round trips are the identity; conversions run no hook and drop nothing; Default is new(Default::default()). RefineMixed.mixed_refines_spec: along every history in which the caller dispatches events through whichever mode it holds (handle, or the typed method when it exists) and converts between the modes at will, the state follows the abstract machine over the dispatched events, each dispatch is accepted exactly when the abstract machine accepts it, and every conversion succeeds and changes nothing. RefineErase.gStep_convert / conversion_erasure: along histories with arbitrary hooks every conversion succeeds, runs no hook and carries the very same typed machine (state, context value, every data slot) over; erasing all conversions from a history changes neither the machine carried at the end nor the hook trace.",
         'level_note': 'Ties: T2 regions ID EX DF DN, T3 walk (into/todyn interleaved with transitions, concrete context + data).',
-        'modules': ['SMV.Props.C10', 'SMV.Props.RefineMixed'],
+        'modules': ['SMV.Props.C10', 'SMV.Props.RefineMixed', 'SMV.Props.RefineErase'],
         'regions': ['ID', 'EX', 'DF', 'DN'],
         't3': ['walk', 'abandon'],
         'design_ref': 'DESIGN.md §7 C10',
@@ -129,9 +129,9 @@ PROPS = {
     },
     'C16': {
         'title': 'Context and payload are moved, never duplicated or lost',
-        'level_text': "Proof (C16.hooks_see_own_context, context_moved, handle_keeps_context, payload_once, context_dropped_with_machine, conversions_keep_context, step_ctx_accounting, context_dropped_exactly_once, dropped_once_at_the_end), for any emitted method and wrapper code: every hook sees the receiver's context and every guard is handed exactly it, Ok moves it into the new machine and Err hands the receiver back, a returning handle keeps it, conversions keep it; the drop log of every call contains the payload exactly once on every path and the context exactly when the machine is destroyed (panic/abandon) and never otherwise.",
+        'level_text': "Proof (C16.hooks_see_own_context, context_moved, handle_keeps_context, payload_once, context_dropped_with_machine, conversions_keep_context, step_ctx_accounting, context_dropped_exactly_once, dropped_once_at_the_end), for any emitted method and wrapper code: every hook sees the receiver's context and every guard is handed exactly it, Ok moves it into the new machine and Err hands the receiver back, a returning handle keeps it, conversions keep it; the drop log of every call contains the payload exactly once on every path and the context exactly when the machine is destroyed (panic/abandon) and never otherwise. RefineErase.conversion_erasure: the context value carried at the end of any history mixing both modes and conversions is the one the pure-handle history carries (arbitrary hooks).",
         'level_note': 'The drop log is part of the L3 reading (SMV/Ops.lean), validated by T3 drop counters. Ties: T2 regions CT CN GC SIG HD ID EX DN.',
-        'modules': ['SMV.Props.C16'],
+        'modules': ['SMV.Props.C16', 'SMV.Props.RefineErase'],
         'regions': ['CT', 'CN', 'GC', 'SIG', 'HD', 'ID', 'EX', 'DN'],
         't3': ['walk', 'assign', 'abandon', 'susp'],
         'design_ref': 'DESIGN.md §7 C16',
